@@ -302,3 +302,50 @@ func TestD15_Roaring64HugeCount(t *testing.T) {
 		t.Fatalf("round trip broken: %v", err)
 	}
 }
+
+// Known finding (not repaired), C09/C10/C13: a bitmap container of exactly 4096 values passes
+// Validate() but the portable writer refuses it. Expected to FAIL on the current tree.
+func TestK12_Bitmap4096ValidatesButCannotBeWritten(t *testing.T) {
+	buf := make([]byte, 8192+2+2+1+4)
+	for i := 0; i < 4096/8; i++ {
+		buf[i] = 0xff // 4096 low bits set
+	}
+	off := 8192
+	buf[off], buf[off+1] = 0, 0 // key 0
+	off += 2
+	buf[off], buf[off+1] = byte(4095&0xff), byte(4095>>8) // cardinality-1
+	off += 2
+	buf[off] = 1 // bitmap
+	off++
+	hdr := uint32(13766) | uint32(1)<<15
+	buf[off], buf[off+1], buf[off+2], buf[off+3] = byte(hdr), byte(hdr>>8), byte(hdr>>16), byte(hdr>>24)
+	bm := roaring.New()
+	if err := bm.FrozenView(buf); err != nil {
+		t.Skipf("frozen view rejected the input: %v", err)
+	}
+	if err := bm.Validate(); err != nil {
+		return // validator rejects it: finding repaired
+	}
+	if _, err := bm.ToBytes(); err != nil {
+		t.Fatalf("Validate()==nil but ToBytes fails: %v", err)
+	}
+}
+
+// Known finding (not repaired), C19: MarshalBinary of the 64-bit BSI omits the sign plane.
+// Expected to FAIL on the current tree.
+func TestK14_BSIMarshalDropsSign(t *testing.T) {
+	b := roaring64.NewDefaultBSI()
+	b.SetValue(1, -5)
+	b.SetValue(2, 7)
+	data, err := b.MarshalBinary()
+	if err != nil {
+		t.Fatal(err)
+	}
+	c := roaring64.NewDefaultBSI()
+	if err := c.UnmarshalBinary(data); err != nil {
+		t.Fatal(err)
+	}
+	if v, ok := c.GetValue(1); !ok || v != -5 {
+		t.Fatalf("after MarshalBinary/UnmarshalBinary column 1 holds %d (exists=%v), want -5", v, ok)
+	}
+}
